@@ -113,6 +113,10 @@ var ETH4345_HEIGHT = map[uint32]uint64{
 	NETWORK_ID_MAIN_NET: constants.ETH4345_HEIGHT_MAINNET,
 }
 
+var ETH5133_HEIGHT = map[uint32]uint64{
+	NETWORK_ID_MAIN_NET: constants.ETH5133_HEIGHT_MAINNET,
+}
+
 var HECO120_HEIGHT = map[uint32]uint64{
 	NETWORK_ID_MAIN_NET: constants.HECO120_HEIGHT_MAINNET,
 	NETWORK_ID_TEST_NET: constants.HECO120_HEIGHT_TESTNET,
@@ -141,6 +145,12 @@ func GetPolygonSnapChainID(id uint32) uint32 {
 
 func GetEth4345Height(id uint32) uint64 {
 	height := ETH4345_HEIGHT[id]
+
+	return height
+}
+
+func GetEth5133Height(id uint32) uint64 {
+	height := ETH5133_HEIGHT[id]
 
 	return height
 }
